@@ -118,6 +118,9 @@ pub fn node_config(node_id: u32, members: &[(u32, bool)], root: &std::path::Path
     r.read_consistency.allow_client_override = k.allow_override;
     r.backpressure.max_pending_writes = k.max_pending_writes;
     r.learner_catchup_threshold = k.catchup_threshold;
+    r.watch.event_queue_size = k.watch_queue;
+    r.watch.watcher_buffer_size = k.watch_buf;
+    r.watch.heartbeat_interval_ms = k.watch_heartbeat_ms;
     cfg.retry.election.timeout_ms = k.election_retry_timeout_ms;
     cfg
 }
